@@ -319,3 +319,14 @@ where
         Ok(self.reconstruct_path(start_state, parent_map, goal_node_idx))
     }
 }
+
+#[cfg(feature = "verif")]
+impl<S: State + Clone, SP: StateSpace<StateType = S>, G: Goal<S>> PRM<S, SP, G> {
+    /// Read-only copy of the roadmap: (state, adjacency list in stored order) per milestone.
+    pub fn verif_snapshot(&self) -> Vec<(S, Vec<usize>)> {
+        self.roadmap
+            .iter()
+            .map(|n| (n.state.clone(), n.edges.clone()))
+            .collect()
+    }
+}
